@@ -162,7 +162,8 @@ Definition process_audio (s : vfs) (p : pkt) (w : bool) : vfs :=
     let g0 := pk_gran p - li_init (cur_link s) in
     let g1 := if g0 <? 0 then 0 else g0 in
     let samples := Z.shiftl (dec_pcmout d) (v_hs s) in
-    set_pcm s1 (g1 - samples + base_of s link)
+    let g2 := if g1 - samples <? 0 then 0 else g1 - samples in
+    set_pcm s1 (g2 + base_of s link)
   else s1.
 
 (* _fetch_and_process_packet(vf, NULL, readp=1, spanp=1), seekable handle.
@@ -411,7 +412,12 @@ Definition pcm_seek_page (s : vfs) (pos : Z) : Z * vfs :=
             (* the packet finishing this page began on an earlier page *)
             match rewind_page (pages_before (v_pages s2) (pg_off pg) []) (cur_link s2) with
             | Some off => raw_seek s2 off
-            | None => (OUT_OF_FUEL, s2)
+            | None =>
+                (* rewound to the beginning of the link's data: broken stream, OV_EBADLINK; the byte
+                   cursor is left behind the last page looked at *)
+                let cur := if pg_off pg <=? li_dataoff (cur_link s2) then v_rem s2
+                           else tl (pages_from (v_pages s2) (li_dataoff (cur_link s2))) in
+                (-137, decode_clear (set_pcm (set_rem s2 cur) (-1)))
             end
         | Some (q', n, g) =>
             let p0 := g - li_init (cur_link s2) in
